@@ -93,12 +93,18 @@ OccVerdictC06(L, toks, o) ==
         ELSE IF ~RecipMatches(o.v, SubSeq(o.t, 3, Len(o.t))) THEN "value-differs-from-text" ELSE "")
   ELSE IF o.o # HasMarker(L, o.t) THEN "ordinal-flag-differs-from-marker"
   ELSE IF ~ValueMatches(o.v, SeqToStr(ReadDec(L, BodyOf(L, o.t)))) THEN "value-differs-from-text"
+  ELSE IF "pv" \in DOMAIN o /\ o.pv # "" /\ o.pv # o.v THEN "value-differs-from-text"      \* exact: the float reading of the text (std parse)
   ELSE ""
 VerdictC06(L, m) ==
   IF m.tk # "ok" THEN "panic"
   ELSE LET occs == m.occs n == Len(m.toks) IN
     IF \E k \in 1..(Len(occs) - 1) : occs[k].e > occs[k + 1].s THEN "spans-overlap-or-unordered"
-    ELSE First([k \in 1..Len(occs) |-> OccVerdictC06(L, m.toks, occs[k])])
+    ELSE LET a == First([k \in 1..Len(occs) |-> OccVerdictC06(L, m.toks, occs[k])]) IN
+         IF a # "" THEN a
+         ELSE IF "iter" \notin DOMAIN m THEN ""
+         \* the occurrences yielded by the lazy iterator are occurrences too
+         ELSE IF \E k \in 1..(Len(m.iter) - 1) : m.iter[k].e > m.iter[k + 1].s THEN "spans-overlap-or-unordered"
+         ELSE First([k \in 1..Len(m.iter) |-> OccVerdictC06(L, m.toks, m.iter[k])])
 
 (* ---- C07: scanner and validator agree ---------------------------------- *)
 IsDecimalText(L, t) == StrContains(BodyOf(L, t), DecMark[L])
@@ -136,9 +142,10 @@ DanglingSep(L, toks, o) ==
 Expected(L, toks, o0, thr, lenient) ==
   LET n == Len(o0)
       free(i, j) == \A x \in (o0[i].e + 1)..o0[j].s : ~Breaker(L, toks[x]) \/ (lenient /\ x = DanglingSep(L, toks, o0[i]))
-      adj(i) == \/ (i > 1 /\ o0[i - 1].o = o0[i].o /\ free(i - 1, i))
-                \/ (i < n /\ o0[i + 1].o = o0[i].o /\ free(i, i + 1))
-      small(i) == (Len(o0[i].t) = 1 \/ o0[i].o) /\ ValueBelow(o0[i].v, thr)
+      ord(i) == HasMarker(L, o0[i].t) /\ ~IsFractionForm(L, o0[i].t)       \* the kind is read from the text, not from the reported flag
+      adj(i) == \/ (i > 1 /\ ord(i - 1) = ord(i) /\ free(i - 1, i))
+                \/ (i < n /\ ord(i + 1) = ord(i) /\ free(i, i + 1))
+      small(i) == (Len(o0[i].t) = 1 \/ ord(i)) /\ ValueBelow(o0[i].v, thr)
   IN SelectSeq([i \in 1..n |-> [occ |-> o0[i], keep |-> ~small(i) \/ adj(i)]], LAMBDA x : x.keep)
 Matches(ex, occT) == Len(ex) = Len(occT) /\ \A k \in 1..Len(ex) : SameOcc(ex[k].occ, occT[k])
 VerdictC09(L, toks, occ0, occT, thr) ==
